@@ -6,10 +6,10 @@ Import ListNotations.
 
 Lemma impl_is_refl : forall fp o t d it, dec_impl fp o t d it = dec_refl fp o t d it.
 Proof.
-  intros fp o t d it. unfold dec_impl.
+  intros fp o t d it. unfold dec_impl, dec_impl_x.
   destruct (fp && has_fastpath t) eqn:E.
-  - apply andb_true_iff in E as [-> E]. apply fast_is_refl_true. exact E.
-  - destruct t; try reflexivity; unfold dec_builtin.
+  - apply andb_true_iff in E as [-> E]. apply (fast_is_refl_true o t d it E).
+  - fold dec_refl. destruct t; try reflexivity; unfold dec_builtin.
     + rewrite (refl_scalar fp o TInt d it (or_introl eq_refl)). reflexivity.
     + rewrite (refl_scalar fp o TStr d it (or_intror eq_refl)). reflexivity.
 Qed.
